@@ -46,6 +46,13 @@ def cases(seed, tier, broken=()):
                     "irr": float(rng.choice([1.0, 1.0, 0.8, 0.5, 0.3, 0.05])),
                     "solver": ["full", "auto", "randomized"][int(rng.integers(0, 3))],
                     "frac": float(rng.choice([0.1, 0.5, 0.9, 0.99, 1.0, float(rng.uniform(0.01, 1.0))]))})
+    # complex matrices (ComplexEOF / Hilbert data): "variance" is the mean squared MODULUS
+    for i in range({"quick": 8, "thorough": 80, "search": 40}[tier]):
+        n, p = int(rng.integers(6, 40)), int(rng.integers(2, 24))
+        out.append({"kind": "threshold", "entry": ["Decomposer", "SVD"][i % 2], "matrix": "spec", "cplx": True,
+                    "spec": ["geom", "lin", "flat", "cluster", "rankdef", "random"][int(rng.integers(0, 6))],
+                    "n": n, "p": p, "mseed": int(rng.integers(0, 2**31)), "scale": float(10.0 ** rng.integers(-3, 4)), "irr": 1.0, "solver": "full",
+                    "frac": float(rng.choice([0.5, 0.9, 0.99, 0.999, float(rng.uniform(0.01, 1.0))]))})
     # --- exact vs randomized / auto
     for i in range({"quick": 12, "thorough": 150, "search": 60}[tier]):
         n, p = int(rng.integers(20, 60)), int(rng.integers(8, 30))
@@ -66,6 +73,11 @@ def cases(seed, tier, broken=()):
     for i in range({"quick": 16, "thorough": 200, "search": 100}[tier]):
         out.append({"kind": "sign", "variant": ["random", "const_neg", "tie", "single"][i % 4], "n": int(rng.integers(5, 30)), "p": int(rng.integers(1, 8)) if i % 4 != 3 else 1,
                     "mseed": int(rng.integers(0, 2**31)), "entry": ["EOF", "SVD", "Decomposer"][(i // 4) % 3]})
+    # … also for WIDE matrices (fewer samples than features), for every entry point (the numpy wrapper serves the PCA pre-reductions)
+    for i in range({"quick": 9, "thorough": 90, "search": 45}[tier]):
+        nn = int(rng.integers(2, 6))
+        out.append({"kind": "sign", "variant": "random", "n": nn, "p": nn + int(rng.integers(2, 9)), "mseed": int(rng.integers(0, 2**31)),
+                    "entry": ["SVD", "EOF", "Decomposer"][i % 3], "wide": True})
     # --- kwargs routing
     for cls in KW_CLASSES:
         out.append({"kind": "kwargs", "cls": cls, "opt": "n_oversamples", "val": int(rng.integers(5, 15))})
@@ -80,7 +92,7 @@ def nontrivial_key(case, info):
     k = case["kind"]
     if k == "threshold":
         return ("threshold", case["entry"], case.get("spec", "boundary"), case.get("n", case.get("k")), case.get("p", case.get("j")),
-                case["solver"], str(case["frac"]), case["irr"])
+                case["solver"], str(case["frac"]), case["irr"], bool(case.get("cplx")))
     if k == "kwargs":
         return ("kwargs", case["cls"])
     return tuple(sorted((a, str(b)) for a, b in case.items()))
@@ -91,7 +103,7 @@ def _matrix(case):
         X = boundary_matrix(case["k"], DYADIC[case["k"]], case["extra"])
     else:
         rng = np.random.default_rng(case["mseed"])
-        X, _ = matrix_with_spectrum(rng, case["n"], case["p"], case["spec"], case["scale"])
+        X, _ = matrix_with_spectrum(rng, case["n"], case["p"], case["spec"], case["scale"], cplx=bool(case.get("cplx")))
         X = X - X.mean(axis=0)
     return X
 
@@ -152,7 +164,7 @@ def run_threshold(case):
     m_exp = int(reach[0]) + 1 if reach.size else k
     margin = np.min(np.abs(cum - f))
     robust = (case["frac"] == "hit" and case["matrix"] == "boundary") or (margin > 1e-6 and (exact_solver or _gap_ok(X, k)))
-    cc = f"{entry}|{'boundary' if case['frac']=='hit' else 'interior'}"
+    cc = f"{entry}|{'boundary' if case['frac']=='hit' else 'interior'}" + ("|complex" if case.get("cplx") else "")
     checks = {"threshold": 0}
     if robust:
         checks["threshold"] = 1
@@ -337,7 +349,7 @@ def run_sign(case):
         # the largest-magnitude loading must be positive; if positive and negative loadings tie, either sign is acceptable
         if (big > 0).any():
             continue
-        F.append(Finding("oracle", "sign_rule_max_abs_positive", f"{var}|{case['entry']}",
+        F.append(Finding("oracle", "sign_rule_max_abs_positive", f"{var}|{case['entry']}" + ("|wide" if case.get("wide") else ""),
                          f"mode {j+1}: largest-magnitude loading is negative: {col[:4]}"))
     return {"findings": F, "info": {"oracle_checks": {"sign": C.shape[1]}, "dist": {"kind": "sign", "variant": var}}}
 
